@@ -63,6 +63,8 @@ var reservedNames = map[string]any{
 	"np":       nil,
 	"npt":      nil,
 	"yardl":    nil,
+	// the first parameter of every generated method
+	"self": nil,
 }
 
 var TypeSyntaxWriter dsl.TypeSyntaxWriter[string] = func(self dsl.TypeSyntaxWriter[string], t dsl.Node, contextNamespace string) string {
